@@ -189,10 +189,31 @@ pub fn silence_panics() {
     // panics raised inside `catch` (expected, part of the oracle) are silent; any other panic is a
     // machinery failure and is printed
     std::panic::set_hook(Box::new(|info| {
-        if crate::QUIET.with(|q| q.get()) == 0 {
+        let loc = info.location().map(|l| format!("{}:{}", l.file(), l.line())).unwrap_or_default();
+        let msg = if let Some(s) = info.payload().downcast_ref::<&str>() { s.to_string() } else if let Some(s) = info.payload().downcast_ref::<String>() { s.clone() } else { "<panic>".into() };
+        let under_test = crate::location_under_test(&loc);
+        crate::LAST_PANIC.with(|l| *l.borrow_mut() = (loc, msg));
+        // a panic raised by the code under test outside `catch` is reported as a violation of the case
+        // being run (see `run_case`); only panics of the machinery itself are printed here
+        if crate::QUIET.with(|q| q.get()) == 0 && !under_test {
             eprintln!("MACHINERY PANIC: {info}");
         }
     }));
+}
+
+/// one case of a space: a panic that escapes the check body is a violation when it was raised in the
+/// code under test (no operation on the inputs the checks build may panic unless the check expects
+/// it and wraps it in `catch`), and a machinery failure otherwise
+pub fn run_case<F: Fn(u64, &mut Acc)>(f: &F, i: u64, acc: &mut Acc) {
+    if let Err(e) = std::panic::catch_unwind(std::panic::AssertUnwindSafe(|| f(i, acc))) {
+        let (loc, msg) = crate::LAST_PANIC.with(|l| l.borrow().clone());
+        if crate::location_under_test(&loc) {
+            let file = loc.rsplit("/src/").next().unwrap_or(&loc).to_string();
+            acc.fail(&format!("panic in the code under test (src/{})", file.split(':').next().unwrap_or("")), format!("unexpected panic at {loc}: {msg}"));
+        } else {
+            std::panic::resume_unwind(e);
+        }
+    }
 }
 
 impl Report {
@@ -254,10 +275,10 @@ impl Report {
             // replay: single case, single thread, executed twice; observations must agree
             let mut a1 = Acc::new();
             a1.cur = *idx;
-            f(*idx, &mut a1);
+            run_case(&f, *idx, &mut a1);
             let mut a2 = Acc::new();
             a2.cur = *idx;
-            f(*idx, &mut a2);
+            run_case(&f, *idx, &mut a2);
             let s1: Vec<_> = a1.viol.iter().map(|(k, v)| (k.clone(), v.1.clone())).collect();
             let s2: Vec<_> = a2.viol.iter().map(|(k, v)| (k.clone(), v.1.clone())).collect();
             if s1 != s2 || a1.outcomes != a2.outcomes {
@@ -274,7 +295,7 @@ impl Report {
             let mut acc = Acc::new();
             for i in 0..size {
                 acc.cur = i;
-                f(i, &mut acc);
+                run_case(&f, i, &mut acc);
             }
             acc
         } else {
@@ -287,7 +308,7 @@ impl Report {
                     let hi = ((c + 1) * chunk).min(size);
                     for i in lo..hi {
                         acc.cur = i;
-                        f(i, &mut acc);
+                        run_case(&f, i, &mut acc);
                     }
                     acc
                 })
